@@ -1,12 +1,12 @@
-import hashlib, os, re
+import os, re
 from ..run import Prop
 from .. import gen, gen_relgrammar as G, core
 from ..core import rec_fields, unhex, hexs
 
 def repo_is_prefix():
-    """True when the repository under test still has the lossless parser WITHOUT
-    proposed_fixes/C10-epoch-and-space-in-version.patch (recognised by the old code of the version
-    clause in fn parse).  Then the faithful model of the text streams is RelParsePre.v."""
+    """True when the repository under test still has the lossless parser from before the fixes
+    0eb8794 / 43dd02f (recognised by the old code of the version clause in fn parse).  Then the
+    faithful model of the text streams is RelParsePre.v."""
     try:
         src = open(os.path.join(core.REPO, "debian-control/src/lossless/relations.rs"), encoding="utf-8").read()
     except OSError:
@@ -16,7 +16,6 @@ def repo_is_prefix():
            'if self.current() == Some(R_PARENS) {')
     return old in flat
 
-LOSSY_CLASSES = ["lossy-negated-arch", "lossy-multi-term-profile", "lossy-ws-in-profile", "lossy-space-before-rparen"]
 
 class C10(Prop):
     id = "C10"
@@ -29,13 +28,12 @@ class C10(Prop):
         "<[!]profile ...> groups, empty entries, trailing comma, ${subst:vars} where enabled, an arbitrary SP/TAB/LF run in every whitespace "
         "slot; no bound on any length or count): the lexer produces exactly rtoks f (C10_lex), the parser builds exactly rtree_of f with no "
         "error (C10_parse_tokens), parse_relaxed/from_str succeed with that tree and print back the text (C10_lossless, C10_from_str), and the "
-        "accessors entries/relations/name/archqual/version/architectures/profiles/substvars report exactly the written content "
-        "(racc (rtree_of f) = rcontent_drop_neg f). architectures() returns Strings and drops '!': outside that recorded class the accessors' "
-        "result IS the content (C10_content), inside it it is not (C10_arch_negation_witness, C10_full_refuted). The reader is the model of the "
-        "code WITH proposed_fixes/C10-epoch-and-space-in-version.patch; the code as it is rejects versions with an epoch and whitespace before "
-        "')' (C10_prefix_epoch_refuted, C10_prefix_space_refuted, model RelParsePre.v). PARTIAL: the lossy-reader clause is stated "
+        "accessors entries/relations/name/archqual/version/architectures/profiles/substvars report exactly the written content, negated "
+        "architectures included, for EVERY well-formed field (C10_content, C10_full_holds: racc_view (racc (rtree_of f)) = rcontent f). "
+        "The reader is the model of /repo 4b18f7c (version = the run of IDENT and COLON tokens); the code before the three fixes this property led to is kept as RelParsePre.v with "
+        "C10_prefix_epoch_refuted, C10_prefix_space_refuted, C10_prefix_arch_negation_refuted. PARTIAL: the lossy-reader clause is stated "
         "(C10_lossy_full, over any model of lossy::Relations::from_str) and decided on every run by the rel-doc stream on the implementation; "
-        "its proof belongs to the cone of C14.")
+        "it is instantiated with C14's model RelLossy.v (C10_lossy_RelLossy, checked on concrete fields by C10_lossy_ex) but not proved.")
     level_note = ("Model: Lexer (debian-control/src/relations.rs), fn parse and the read accessors of debian-control/src/lossless/relations.rs "
                   "(coq/model/RelLex.v, RelParse.v, RelAcc.v); specification: coq/model/RelGrammar.v (rrender, wf_rfield, rtoks, rtree_of, rcontent).")
     rule = ("rel-doc: systematic small fields (every combination of optional parts x trailing whitespace x position) + random inhabitants of "
@@ -56,7 +54,8 @@ class C10(Prop):
     assumptions = ["inputs are valid UTF-8 (Rust &str)",
                    "names, versions, architecture and profile names are non-empty strings over [A-Za-z0-9.+~-]; an epoch is a canonical decimal <= 4294967295",
                    "terms inside [...] and <...> are separated by at least one whitespace character; whitespace is SP, TAB or LF",
-                   "the lossless reader is the one of /repo with proposed_fixes/C10-epoch-and-space-in-version.patch applied"]
+                   "the lossless reader is the one of /repo 4b18f7c or later (fixes 0eb8794, c2fa7c8, 4b18f7c, 43dd02f, 541b0f5)",
+                   "the upstream part of a version contains colons only when there is an epoch (Policy 5.6.12)"]
 
     def streams(self, tier, rng):
         docs = G.doc_cases(tier, rng, "d")
@@ -64,7 +63,7 @@ class C10(Prop):
         if repo_is_prefix():
             # the code under test lacks the proposed fix: rel-doc reports the property violations;
             # the text stream is compared with the faithful model of the code as it is
-            core.log("[C10] the repository under test lacks proposed_fixes/C10-epoch-and-space-in-version.patch: "
+            core.log("[C10] the repository under test predates the fixes 0eb8794/43dd02f/541b0f5: "
                      "text stream compared with the pre-fix model (RelParsePre.v)")
             yield "rel-acc-pre", G.text_cases(tier, rng, "t")
             return
@@ -118,44 +117,8 @@ class C10(Prop):
                 if i < len(s): out.append(s[:i] + c + s[i+1:])
         return [[hexs(x)] for x in dict.fromkeys(out)][:3000]
 
-    # ---- known finding classes
-    def known_class(self, stream, fields, impl, model, why):
-        if stream != "rel-doc" or impl in ("PANIC", "HANG", "ABORT", "MISSING"):
-            return None
-        try:
-            f = G.decode(fields[1])
-        except Exception:
-            return None
-        r, m = rec_fields(impl), rec_fields(model)
-        subst = G.has_subst(f)
-        # everything but the architecture negations and the lossy value must be as specified
-        want = {"e1": "0", "sv": G.substvars_record(f)}
-        want.update({"e0": "-", "strict": "-", "acc0": "-", "sv0": "-"} if subst else {"e0": "0", "strict": "OK", "acc0": "=", "sv0": "="})
-        for k, v in want.items():
-            if r.get(k) != v or m.get(k) != v:
-                return None
-        if m.get("acc") != G.content_record(f):
-            return None
-        classes = []
-        if r.get("acc") != G.content_record(f):
-            # narrow: the ONLY difference is that the '!' in front of architectures is missing
-            if not G.has_neg_arch(f) or r.get("acc") != G.content_record(f, neg_marks=False):
-                return None
-            classes.append("arch-negation-dropped")
-        if fields[2] == "1":
-            if m.get("lossy") != G.content_record(f):
-                return None
-            if r.get("lossy") != r.get("acc"):
-                lc = G.lossy_classes(f)
-                if not lc:
-                    return None
-                classes.append(lc[int(hashlib.sha256(fields[0].encode()).hexdigest(), 16) % len(lc)])
-        elif r.get("lossy") != "-" or m.get("lossy") != "-":
-            return None
-        if not classes:
-            return None
-        # a field with a negated architecture is in two classes at once (lossless accessor, lossy
-        # reader); the flow records one class per case, so pick one of them deterministically
-        return classes[int(hashlib.sha256(fields[1].encode()).hexdigest(), 16) % len(classes)]
+    # no known finding classes: the three lossless defects (epoch / colons in a version, whitespace
+    # before ')', '!' dropped by architectures()) and the four lossy ones found by this cone are
+    # fixed in /repo (0eb8794 c2fa7c8 4b18f7c 43dd02f 541b0f5 / a2c6991 7cd890b 3e262bf); a regression is a VIOLATION
 
 PROP = C10()
